@@ -142,7 +142,12 @@ def run_atheris(ctx, rec, runs, part="atheris"):
 
 
 def judge_case(record):
-    return judge(record["case"])["viol"]
+    c = record["case"]
+    if "ops" in c:
+        from . import c17
+
+        return c17.judge(c)["viol"]
+    return judge(c)["viol"]
 
 
 FIXED = [
@@ -231,6 +236,21 @@ def run(ctx, rec):
     if rec.violations:
         return
     runner.hyp_run(ctx, rec, "char-mutations", char_cases(_repo_programs()), judge, ctx.n(1000, 8000))
+    if rec.violations:
+        return
+    if ctx.shard == 0:
+        # the same invalid text handed to one live evaluator by two threads at once (owned schedule, single-preemption sweep
+        # over the last lines of the first thread): BOTH must be refused
+        from . import c17
+
+        def sweep():
+            for old, t in ((0, 0), (1, 2)):
+                base = {"shared": [old], "ops": [{"k": "recompile_invalid", "ev": 0, "text": t}] * 2, "cycle": False}
+                total = c17._lines_alone(dict(base, schedule=[]))
+                for L in sorted(set(range(1, total + 1, max(1, total // 150))) | set(range(max(1, total - 40), total + 1))):
+                    yield dict(base, schedule=[[0, L], [1, 10 ** 9], [0, 10 ** 9]], sweep=True)
+
+        runner.direct_run(ctx, rec, "two-threads-same-invalid-text", sweep(), c17.judge)
     if rec.violations or ctx.quick:
         return
     st_ = run_atheris(ctx, rec, 30000)
